@@ -27,3 +27,36 @@ Print Assumptions c12_decode_exact.
 Theorem c12_decode_old_refuted : exists s d, decode_timeout_old s = Some d /\ ~ grammar s d.
 Proof. exact decode_old_refuted. Qed.
 Print Assumptions c12_decode_old_refuted.
+
+(* ---- enforcement on the whole call: the forwarder LTS (all scripts, all schedules) ---- *)
+From GB Require Import Model.Forward Proofs.ForwardProofs Model.MDFilter Proofs.MDFilterProofs.
+
+(* a call that returns DeadlineExceeded was stopped by its deadline (unless the target or an adapter itself said so) *)
+Theorem c12_deadline_exceeded_means_deadline : forall sc s, Reach sc s -> mp s = MRet (RErr 4) ->
+  ~ In 4 (script_codes sc) -> fired s = CtxDeadline.
+Proof. exact deadline_exceeded_means_deadline. Qed.
+Print Assumptions c12_deadline_exceeded_means_deadline.
+
+(* every returned status has a source: scripted (target / adapter), unexpected EOF, Canceled, or the fired deadline *)
+Theorem c12_result_source : forall sc s e, Reach sc s -> mp s = MRet (RErr e) ->
+  In e (script_codes sc) \/ e = 14 \/ e = 1 \/ (e = 4 /\ fired s = CtxDeadline).
+Proof. exact result_source. Qed.
+Print Assumptions c12_result_source.
+
+(* once the deadline has fired the call cannot get stuck, whatever both sides do (idle client, silent or unreachable target) *)
+Theorem c12_deadline_unblocks : forall sc, in_aware sc = true /\ out_aware sc = true ->
+  forall s, Reach sc s -> final s = false -> fired s = CtxDeadline -> exists l s', In (l, s') (next sc s).
+Proof.
+  intros sc A s R NF F. apply (no_deadlock_after_event sc A s R NF). left. unfold ctx_done. rewrite F. apply Bool.orb_true_r.
+Qed.
+Print Assumptions c12_deadline_unblocks.
+
+(* the timeout is consumed, never forwarded as metadata (shared with C07) *)
+Theorem c12_never_forwarded : forall allow prefix m, ~ In (lower timeout_key) (map fst (outgoing_md allow prefix m)).
+Proof. exact timeout_never_forwarded. Qed.
+Print Assumptions c12_never_forwarded.
+
+(* waiting for the connection takes at most half of what is left: never later than the call's deadline *)
+Theorem c12_halved_never_later : forall now d, now <= d -> now <= halved_deadline now d <= d.
+Proof. exact halved_never_later. Qed.
+Print Assumptions c12_halved_never_later.
